@@ -1,7 +1,7 @@
 SPECIFICATION SSpec
 CONSTANTS
   DutySlots = {9}
-  Validators = {2}
+  Validators = {1, 2}
   SlotsPerEpoch = 4
   Relays = {1}
   NRelays = 1
@@ -9,26 +9,26 @@ CONSTANTS
   Versions = {"deneb"}
   Blindable = {"deneb"}
   Outcomes = {"full"}
-  Scripts = {"full", "err", "never"}
-  GraffitiOuts = {"static", "template", "err"}
+  Scripts = {"full", "err"}
+  GraffitiOuts = {"static"}
   PrepOuts = {"ok", "err"}
   CfgFilter = "graffiti"
   Drops = TRUE
-  Dslots <- AllDslots
+  Dslots <- FwdDslots
   MaxCalls = 3
-  NDuties = 2
-  SlotGaps = {1}
-  MaxOpen = 1
+  NDuties = 3
+  SlotGaps = {0, 1}
+  MaxOpen = 3
   MaxInFlight = 1
-  InitCfgs <- AllCfgs
+  InitCfgs <- BuilderCfgs
   LaterAllChoices = {{1}}
   LaterVersions = {"deneb"}
   LaterOutcomes = {"full"}
   LaterDslots = {0}
   LaterScripts = {"full"}
-  LaterGraffitiOuts = {"static", "template", "err"}
+  LaterGraffitiOuts = {"static"}
   LaterPrepOuts = {"ok"}
-  LaterNodeClientOuts = {"ok", "err"}
+  LaterNodeClientOuts = {"ok"}
   LaterStepOuts = {"ok"}
 INVARIANTS Emit
 CHECK_DEADLOCK FALSE
